@@ -269,6 +269,9 @@ func referrerSplit(inBytes []byte, limit int64) ([][]byte, error) {
 
 // referrerAdd adds a new referrer entry to a given subject.
 func (s *Server) referrerAdd(repo store.Repo, subject digest.Digest, desc types.Descriptor) error {
+	// the response is read, modified, and written back with several store calls
+	s.referrerMu.Lock()
+	defer s.referrerMu.Unlock()
 	index, err := repo.IndexGet()
 	if err != nil {
 		return err
@@ -333,6 +336,9 @@ func (s *Server) referrerAdd(repo store.Repo, subject digest.Digest, desc types.
 
 // referrerDelete removes a referrer entry from a subject.
 func (s *Server) referrerDelete(repo store.Repo, subject digest.Digest, desc types.Descriptor) error {
+	// the response is read, modified, and written back with several store calls
+	s.referrerMu.Lock()
+	defer s.referrerMu.Unlock()
 	// get the index.json
 	index, err := repo.IndexGet()
 	if err != nil {
